@@ -14,7 +14,7 @@ monitor_name = "C20Check.c20_ok"
 sub_names = {1: "the ordered history of one run with init_tracing()"}
 rule = ("cases = 1-5 scenarios (1-3 steps each, @retry(N) with failing first attempts or none) whose step bodies emit 0-3 tracing "
         "events before and 0-2 after an await point that yields 0-3 (a third of the steps: 9 or 14) times (30% of the cases have one chatty step with a burst of 26-89 "
-        "messages; 25% of the steps emit inside a user span nested in the step's span; 20% of the steps emit messages whose text contains double underscores; 20% of the steps hold a clone of their span beyond their own end (it is dropped inside a step of another scenario, so the close arrives after the subscription); 40% of the runs are polled inside an "
+        "messages; 25% of the steps emit inside a user span nested in the step's span; 20% of the steps emit messages whose text contains double underscores; 15% of the steps emit one more message from a helper thread that has no current span, with the step's span as explicit parent; 20% of the steps hold a clone of their span beyond their own end (it is dropped inside a step of another scenario, so the close arrives after the subscription); 40% of the runs are polled inside an "
         "application-level span; in 25% the cucumber layer sits behind LevelFilter::WARN and the messages are warnings; in 25% a which_scenario classifier is installed after init_tracing(); in 35% before and/or after hooks log 0-3 messages inside their own spans), concurrency 1..8 or unlimited; ONE run per process "
         "(the subscriber is global) through the REAL Cucumber::init_tracing() with a recording writer in front of which there is no "
         "Normalize. The trace points of the hook (forwarder calls, span closes, subscriptions), the harness's own records (step "
@@ -28,7 +28,7 @@ trusted_base = [
     "the `tracing` / `tracing-subscriber` crates (span lifecycle, same-thread ordering of events and span close) are third-party",
     "Rust harness /verif/harness-tracing, python orchestrator /verif/lib",
 ]
-assumptions = ["logs are emitted on the runner's thread, inside the span of the step or hook that emits them",
+assumptions = ["logs are emitted inside the span of the step or hook that emits them: on the runner's thread, or by a helper thread that is joined at once and names the step's span as explicit parent",
                "known-finding class K20a (messages logged inside an After hook) is excluded by hypothesis",
                "scenario registration (start_scenarios / finish_scenario) is not modelled: every log belongs to a running scenario"]
 
@@ -39,7 +39,7 @@ def gen_one(rng):
         sid = 11 + i
         retry = None if rng.random() < 0.5 else rng.randrange(0, 3)
         steps = [dict(id=sid * 10 + j + 1, pre=rng.choice([0, 1, 2, 3]), yields=rng.choice([0, 0, 1, 3, 9, 14]), post=rng.choice([0, 1, 2]),
-                      inner=rng.random() < 0.25, under=rng.random() < 0.2, leak=rng.random() < 0.2)
+                      inner=rng.random() < 0.25, under=rng.random() < 0.2, leak=rng.random() < 0.2, off_thread=rng.random() < 0.15)
                  for j in range(rng.randrange(1, 4))]
         scs.append(dict(id=sid, retry=retry, fails=min(rng.choice([0, 0, 1, 2]), (retry or 0) + 1), steps=steps))
     if rng.random() < 0.3:          # a chatty step: a burst of messages between two await points
@@ -97,7 +97,7 @@ def panic_result(case):
 
 
 def nmsgs(case):
-    return sum(sum(h[0] + h[2] for h in (case.get("hooks") or {}).values() if isinstance(h, list)) * len(case["scenarios"]) for _ in [0]) + sum(st["pre"] + st["post"] for sc in case["scenarios"] for st in sc["steps"])
+    return sum(1 for sc in case["scenarios"] for st in sc["steps"] if st.get("off_thread")) + sum(sum(h[0] + h[2] for h in (case.get("hooks") or {}).values() if isinstance(h, list)) * len(case["scenarios"]) for _ in [0]) + sum(st["pre"] + st["post"] for sc in case["scenarios"] for st in sc["steps"])
 
 
 def nontrivial(case, res):
@@ -110,5 +110,5 @@ def describe(case, res):
             "retry=%s" % any(sc["retry"] for sc in case["scenarios"]), "outer_span=%s" % bool(case.get("outer")),
             "inner_span=%s" % any(st.get("inner") for sc in case["scenarios"] for st in sc["steps"]),
             "dunder=%s" % any(st.get("under") for sc in case["scenarios"] for st in sc["steps"]),
-            "leak=%s" % any(st.get("leak") for sc in case["scenarios"] for st in sc["steps"]), "filter=%s" % case.get("filter", "info"), "hooks=%s" % ("none" if not case.get("hooks") else "+".join(k for k in ("before", "after", "stagger") if case["hooks"].get(k))), "which_after=%s" % bool(case.get("which_after")),
+            "off_thread=%s" % any(st.get("off_thread") for sc in case["scenarios"] for st in sc["steps"]), "leak=%s" % any(st.get("leak") for sc in case["scenarios"] for st in sc["steps"]), "filter=%s" % case.get("filter", "info"), "hooks=%s" % ("none" if not case.get("hooks") else "+".join(k for k in ("before", "after", "stagger") if case["hooks"].get(k))), "which_after=%s" % bool(case.get("which_after")),
             "burst=%s" % any(st["pre"] > 8 or st["post"] > 8 for sc in case["scenarios"] for st in sc["steps"])]
